@@ -251,6 +251,8 @@ def run(cx, rep):
 
     rep.rule("C07.5", "atom materialisation depends on every field of the atomic type")
     atom_field_coverage(cx, rep, F)
+    rep.rule("C07.6", "an atom is printed by the materialiser of the table it was fetched from")
+    family_flow_rule(cx, rep, F, "C07.6")
     # ---------------------------------------------------------------- C07.4
     rep.rule("C07.4", "polarity of materialised literal sets and atoms")
     n_mn = 0
@@ -296,12 +298,106 @@ def run(cx, rep):
                 it = [x["name"] for x in walk(lp["scrut"]) if x["k"] == "Field" and x["name"] in ("positive", "negative")]
                 if not it:
                     continue
-                has_not = any((x.get("callee") or "").endswith("::st_not") for x in walk(lp["arms"]) if x["k"] == "Call")
+                def calls_not(node, depth=0, seen_=None):
+                    seen_ = seen_ if seen_ is not None else set()
+                    for x in walk(node):
+                        if x["k"] == "Call" and (x.get("callee") or "").endswith("::st_not"):
+                            return True
+                        if x["k"] in ("Call", "MethodCall") and depth < 2:
+                            tg_ = F._callee_gid(f.crate, (x.get("resolved") or x.get("callee")) or "")
+                            h_ = F.fns.get(tg_)
+                            # private helpers of the same file only (the materialisers themselves never negate)
+                            if h_ is not None and tg_ in F.hir and tg_ not in seen_ and h_.file == f.file and h_.vis != "Public" and tg_ != g:
+                                seen_.add(tg_)
+                                if calls_not(F.hir[tg_]["body"], depth + 1, seen_):
+                                    return True
+                    return False
+                has_not = calls_not(lp["arms"])
                 seen[it[0]] = has_not
             rep.ob("C07.4", "%s/atoms" % f.name, seen == {"positive": False, "negative": True},
                    "%s: Not must wrap exactly the negative atoms of a clause (found %s)" % (f.id, seen), f.loc(), sample={"fn": f.name, "not_applied": seen})
     rep.floor("C07.4", "negation wrapper call sites under an `allowed` arm", n_mn, 8)
     rep.floor("C07.4", "clause materialisers (loops over positive / negative atoms)", n_conj, 4)
+
+
+ACCESSOR_FAMILY = {"get_mapping_atomic": "mapping", "get_map_atomic": "map", "get_list_atomic": "list", "get_set_atomic": "set"}
+CTOR_FAMILY = {"object": "mapping", "record": "mapping", "any_object": "mapping", "map": "map", "tuple": "list", "array": "list", "any_array_like": "list", "set": "set"}
+
+
+def family_flow_rule(cx, rep, F, rid):
+    """Object, Map, tuple/array and Set atoms live in four tables that share two representation types
+    (MappingAtomicType, ListAtomic).  An atom fetched from one table must be printed by the materialiser of the same
+    family: `get_map_atomic(i)` printed by the function that builds `Runtype::object(..)` turns `Not<Map<K,V>>` into
+    `Not<{[k:K]:V}>`, which is vacuous against a Map, so excluded Map types survive the difference.  Decided:
+    interprocedural flow, inside to_schema.rs, from the four accessors (through parameters of private helpers) into
+    the atomic-typed parameter of every function; a function that directly builds a family's Runtype constructor may
+    only receive atoms of that family."""
+    from mirflow import FnFlow, Origins, op_local
+    fns = {g: f for g, f in F.fns.items() if (f.file or "").endswith("subtyping/to_schema.rs") and f.mir and f.kind != "Closure"}
+    atomic = lambda t: "MappingAtomicType" in t or "ListAtomic" in t
+    params = {g: [i + 1 for i, t in enumerate(f.inputs or []) if atomic(t)] for g, f in fns.items()}
+    fam = {(g, i): set() for g in fns for i in params[g]}
+    # direct constructor family of each function (from its HIR; closures are nested in the tree)
+    ctor = {}
+    for g in fns:
+        t = F.hir.get(g)
+        ks = set()
+        if t is not None:
+            for n in walk(t["body"]):
+                if n["k"] == "Call":
+                    m = re.search(r"Runtype::(\w+)$", n.get("callee") or "")
+                    if m and m.group(1) in CTOR_FAMILY:
+                        ks.add(CTOR_FAMILY[m.group(1)])
+                if n["k"] == "Struct":
+                    m = re.search(r"RuntypeKind::(Object|Map|Tuple|Array|Set)$", n.get("def") or "")
+                    if m:
+                        ks.add({"Object": "mapping", "Map": "map", "Tuple": "list", "Array": "list", "Set": "set"}[m.group(1)])
+        ctor[g] = ks
+    changed = True
+    rounds = 0
+    flows = {}
+    while changed and rounds < 6:
+        changed = False
+        rounds += 1
+        for g, f in fns.items():
+            group = [f] + [c_ for c_ in F.fns.values() if c_.mir and (c_.root == g) and c_.kind == "Closure"]
+            for h in group:
+                flow = flows.get(h.id)
+                if flow is None:
+                    flow = flows[h.id] = (FnFlow(h), Origins(FnFlow(h)))
+                fl, O = flow
+                for c in h.calls:
+                    for tg in (c.local_target or []):
+                        if tg not in fns or not params.get(tg):
+                            continue
+                        for i in params[tg]:
+                            if i - 1 >= len(c.term["args"]):
+                                continue
+                            org = O.of_operand(c.term["args"][i - 1])
+                            got = set()
+                            for o in org:
+                                if o[0] == "call":
+                                    nm = o[1].rsplit("::", 1)[-1]
+                                    if nm in ACCESSOR_FAMILY:
+                                        got.add(ACCESSOR_FAMILY[nm])
+                                elif o[0] == "param" and h.kind != "Closure" and (g, o[1]) in fam:
+                                    got |= fam[(g, o[1])]
+                                elif o[0] == "upvar" or (o[0] == "param" and h.kind == "Closure"):
+                                    pass
+                            if not got <= fam[(tg, i)]:
+                                fam[(tg, i)] |= got
+                                changed = True
+    n = 0
+    for (g, i), fs in sorted(fam.items()):
+        if not ctor[g]:
+            continue
+        n += 1
+        ok = fs <= ctor[g] if len(ctor[g]) == 1 else True
+        rep.ob(rid, "%s/param%d" % (fns[g].name, i), ok,
+               "%s builds the %s form but can receive atoms fetched from the %s table(s): an atom of another family is printed as if it were a %s" % (
+                   fns[g].id, sorted(ctor[g]), sorted(fs - ctor[g]), sorted(ctor[g])[0] if ctor[g] else "?"),
+               fns[g].loc(), sample={"fn": fns[g].name, "builds": sorted(ctor[g]), "receives_atoms_of": sorted(fs)})
+    rep.floor(rid, "materialisers with an atomic parameter", n, 4)
 
 
 def atom_field_coverage(cx, rep, F):
@@ -311,7 +407,19 @@ def atom_field_coverage(cx, rep, F):
     n = 0
     for gid in sorted(F.hir):
         f = F.fns.get(gid)
-        if f is None or not (f.file or "").endswith("subtyping/to_schema.rs") or not (f.name or "").endswith("_atom_schema"):
+        if f is None or not (f.file or "").endswith("subtyping/to_schema.rs") or f.kind == "Closure":
+            continue
+        # materialisers, by role: a parameter of an atomic type and a family constructor built in the body
+        ins_ = f.inputs or []
+        if len(ins_) < 2 or not ("MappingAtomicType" in ins_[1] or "ListAtomic" in ins_[1]):
+            continue
+        builds = False
+        for n_ in walk(F.hir[gid]["body"]):
+            if n_["k"] == "Call" and re.search(r"Runtype::(object|record|any_object|map|tuple|array|any_array_like|set)$", n_.get("callee") or ""):
+                builds = True
+            if n_["k"] == "Struct" and re.search(r"RuntypeKind::(Object|Map|Tuple|Array|Set)$", n_.get("def") or ""):
+                builds = True
+        if not builds:
             continue
         tree = F.hir[gid]
         ps = [p.get("name") for p in tree["params"]]
